@@ -98,6 +98,11 @@ impl From<DIDUrl> for DIDUrlQuery<'_> {
 
 impl<'query> From<&'query RelativeDIDUrl> for DIDUrlQuery<'query> {
   fn from(other: &'query RelativeDIDUrl) -> Self {
+    // Without a fragment nothing can match. Rendered as a string, the path and query would be taken for a bare
+    // fragment (`/` and `?` are legal fragment characters).
+    if other.fragment().is_none() {
+      return Self(Cow::Borrowed(""));
+    }
     Self(Cow::Owned(other.to_string()))
   }
 }
